@@ -58,3 +58,19 @@ def check_steady_pipeline(prog, rep, rule):
                       "steady-state argument = compute_steady_states(<the graph evaluated on>), unconditionally",
                       f"eval_node receives {short(a[3], 160) if len(a) > 3 else None} as steady states; expected compute_steady_states of the graph it evaluates on")
     return n
+
+
+def validators(prog):
+    """(plain, extended): the functions of the driver module that turn formula strings into validated trees - found by what they
+    call (parse_and_minimize_hctl_formula / parse_and_minimize_extended_formula, public functions of the parser), not by name."""
+    raw = terms.Engine(prog, inline=False)
+    out = {False: None, True: None}
+    for f in prog.lib_fns():
+        if not f.path.startswith(MC) or "HctlTreeNode" not in str(f.ret):
+            continue
+        s = raw.summary(f)
+        for ext, callee in ((False, "parse_and_minimize_hctl_formula"), (True, "parse_and_minimize_extended_formula")):
+            if any(x.kind == "call" and x.is_call_to(callee) for x in s.all_sites()):
+                if out[ext] is None or len(f.path) < len(out[ext].path):
+                    out[ext] = f
+    return out[False], out[True]
